@@ -340,7 +340,19 @@ impl StorageEngine {
             Some(stored_value) if !stored_value.is_expired() => {
                 let ttl = stored_value.metadata.expires_at
                     .map(|expires_at| expires_at.saturating_duration_since(Instant::now()));
-                Ok(Some((stored_value.value.clone(), ttl)))
+                let value = match &stored_value.value {
+                    // Cloning a sorted set only clones the reference: copy the members while the
+                    // shard lock is held, so that later ZADD/ZREM cannot change what is returned
+                    Value::SortedSet(zset) => {
+                        let copy = SkipList::new();
+                        for (member, score) in zset.get_all_items() {
+                            copy.insert(member, score);
+                        }
+                        Value::SortedSet(Arc::new(copy))
+                    }
+                    other => other.clone(),
+                };
+                Ok(Some((value, ttl)))
             }
             _ => Ok(None),
         }
